@@ -6,7 +6,7 @@ import core, store_common as sc
 ID = 'C20'
 GENMODS = ['gen_store']
 TARGET = 'props/C20.vo'
-PROOF_FILES = ['proof/C20.v', 'proof/IniProofs.v', 'proof/IniFile.v', 'props/C20.v']
+PROOF_FILES = ['proof/C20.v', 'proof/IniProofs.v', 'proof/IniFile.v', 'proof/IniFile2.v', 'proof/StoreText.v', 'props/C20.v']
 AXIOMS = []
 TRUSTED = [
     'Coq 8.16.1 kernel; vm_compute for the correspondence evaluation; no axioms',
@@ -100,12 +100,16 @@ def correspond(ctx):
     dist = {k: sum(1 for c in cases if c['mutation'] == k) for k in MUTATIONS}
     import ini_common as ic
     idis, istats, _ = ic.check_ini(ctx, 300 if ctx['thorough'] else 80, 'C20i'); dis += idis; dist.update(istats)
-    return {'evaluations': len(cases) + istats['ini_files'], 'cases': cases, 'nontrivial': core.distinct_count([c for c in cases if c['mutation'] != 'none']),
+    # store model <-> characters (proof/StoreText.v): the model's printer is the harness' printer, and the raw parser of the repository
+    # holds what text_store says whenever Store.parse accepts (and refuses the text whenever it does not)
+    tdis, tstats = sc.check_store_text([c['model'] for c in cases][:(200 if ctx['thorough'] else 60)], 'C20t'); dis += tdis; dist.update(tstats)
+    return {'evaluations': len(cases) + istats['ini_files'] + tstats['store_text_files'], 'cases': cases, 'nontrivial': core.distinct_count([c for c in cases if c['mutation'] != 'none']),
             'rule': 'generated pair/EAM/FS models, unmutated or with one entry duplicated in one of %d ways (same line, whitespace variants of A-B / A->B / f(r,a) / species / options, reversed pair, repeated section header, '
                     'repeated or whitespace-variant table-form name, table form named like a formula or like a built-in form, formula label with other parameters); verdict accept/reject compared; non-trivial = mutated; text level: parse_ini (model/Ini.v) vs the raw parser of the repository on generated files with repeated sections and keys in several spellings' % (len(MUTATIONS) - 1),
             'samples': cases[:2], 'distribution': dist, 'disagreements': dis[:20], 'oracle_cases': cases}
 
 def oracle(case):
+    if case.get('kind') in ('ini', 'store_text'): return []      # text-level correspondence cases: no verdict of this property's statement
     got = run_impl(case)
     if case['mutation'] == 'none':
         return [] if got[0] == 'Ok' else ['a model without duplicates was refused: %s' % (got[1],)]
